@@ -51,6 +51,37 @@ theorem inv_run?_fold {α : Type} (f : α → Obs → α) (Inv : St → α → P
     | none => simp [hs] at hr
     | some s1 => rw [hs] at hr; exact ih s1 s' (f a o) (hstep s a o s1 h hs) hr
 
+
+/-- The three ways a token is accepted: an owed callback, the optional SESSION_STATUS close, or a
+regular step (`act`) on the state with `mayClose` reset and - if predicted - the prediction popped. -/
+theorem step?_cases (s : St) (o : Obs) (s' : St) (h : step? s o = some s') :
+    (∃ q qs, s.cbq = q :: qs ∧ o = ⟨q.1, .cb q.2.1 q.2.2⟩ ∧ s' = { s with cbq := qs }) ∨
+    (s.cbq = [] ∧ s.mayClose = true ∧ o.lab = .frame .sclose 0 ∧ s' = { s with mayClose := false }) ∨
+    (s.cbq = [] ∧ ∃ pd fp, (pd = s.pend ∨ ∃ p, s.pend = p :: pd) ∧
+        act { s with mayClose := false, pend := pd } o fp = some s') := by
+  unfold step? at h
+  split at h
+  · rename_i q qs hq
+    split at h
+    · rename_i ho
+      simp only [Option.some.injEq] at h
+      exact .inl ⟨q, qs, hq, by simpa using ho, h.symm⟩
+    · simp at h
+  · rename_i hq
+    split at h
+    · rename_i ho
+      simp only [Option.some.injEq] at h
+      simp only [Bool.and_eq_true, beq_iff_eq] at ho
+      exact .inr (.inl ⟨hq, ho.1.1, ho.2, h.symm⟩)
+    · refine .inr (.inr ⟨hq, ?_⟩)
+      split at h
+      · rename_i p ps hp
+        split at h
+        · exact ⟨ps, true, .inr ⟨p, hp⟩, h⟩
+        · simp at h
+      · rename_i hp
+        exact ⟨s.pend, false, .inl rfl, by simpa [hp] using h⟩
+
 /-! `notifyEff` touches only `cm`, `conn`, `cbq`. -/
 @[simp] theorem notifyEff_kind (s : St) (t : Tag) (st : CS) : (notifyEff s t st).kind = s.kind := by
   unfold notifyEff; split <;> rfl
